@@ -30,7 +30,7 @@ META = dict(
     assumptions=play.COMMON_ASSUMPTIONS,
     rule='feasible paths of play_card_by_player from a symbolic state; distinct = different path conditions',
     explanation='inductive step of the real play engine over bit-set hands + BMC of the first tricks',
-    required_outcomes=['constructed', 'has_done', 'card 1 of a trick', 'card 4 of a trick', 'ran'],
+    required_outcomes=['constructed', 'has_done', ('card 1 of a trick', 'H1 not applicable'), ('card 4 of a trick', 'H1 not applicable'), 'ran'],
 )
 
 
